@@ -35,7 +35,7 @@ def run_tlc(
     seed: int | None = None,
     dfs: bool = False,
     keep_dir: bool = False,
-    heap: str = "6g",
+    heap: str = "4g",
     allow_violation: bool = False,
 ) -> dict:
     """Run TLC on spec/<module>.tla with the given cfg *text*.
